@@ -65,7 +65,7 @@ fn c13_cross<F: Fam, G: Fam>(ctx: &Ctx, ast: &Ast, bytes: &[u8], level: u8) {
                     ctx.violation(format!("C13:{}-decoder:level{level}:async-error", F::NAME), format!("async {} decoder on a {} CONNECT: {:?}", F::NAME, G::NAME, first.map(|r| r.map(|_| "packet"))), case.clone());
                     continue;
                 }
-                if pos != gate {
+                if pos > gate {
                     ctx.violation(
                         format!("C13:{}-decoder:level{level}:consumed-past-protocol", F::NAME),
                         format!("{} decoder refused the {} CONNECT {} after consuming {pos} bytes; protocol name and level end at {gate} (bytewise={bytewise})", F::NAME, G::NAME, hex_short(bytes)),
